@@ -633,7 +633,8 @@ static int run_batch(Property *p, bool thorough, uint64_t seed, int jobs, double
     cov["configs_seen"] = cfg;
     cov["corpus_plans_rerun"] = corpus_done;
     if (fam) cov["systematic_family"] = json{{"name", p->family_name()}, {"size", fam}, {"completed", fam_done}};
-    cov["exhaustive"] = false;
+    // fault_enumeration checks: the systematic family (every fault index of every scenario) was completed in this run
+    cov["exhaustive"] = fam > 0 && fam_done >= fam && p->level == "fault_enumeration";
     cov["components"] = json{{"real", p->real_components}, {"stub", p->stub_components}};
     cov["determinism"] = json{{"reran", counters.count("determinism.reran") ? counters["determinism.reran"] : 0}, {"mismatches", mismatches}};
     cov["worker_deaths"] = crashes;
